@@ -564,6 +564,12 @@ def run(ck: core.Check):
         entry = c01_entry.generate()
     except Exception as e:  # noqa: BLE001
         ck.broken("generated", "C01 entry-option inventory (translator/c01_entry.py)", f"{type(e).__name__}: {e}")
+    try:  # tie G: every public constructor parameter that takes a sequence of Vars
+        from translator import c01_variadic
+
+        ck.cov["sequence_parameters_inventory"] = c01_variadic.generate()
+    except Exception as e:  # noqa: BLE001
+        ck.broken("generated", "C01 sequence-parameter inventory (translator/c01_variadic.py)", f"{type(e).__name__}: {e}")
     ck.lean(["SpoxModel.Props.C01"], audit="SpoxModel.Audit.C01")
     if entry is not None:
         # the Lean lists say what the harness varies: keep them honest against the harness's own tables
@@ -588,7 +594,7 @@ def run(ck: core.Check):
         ck.leanchecker(["SpoxModel.Props.C01"])
 
     rng = ck.rng
-    n_random = ck.pick(460, 6000)
+    n_random = ck.pick(400, 6000)
     n_styles = ck.pick(3, 4)
     n_bind = 3
     skel_uses = ck.pick(3, 6)
@@ -699,6 +705,8 @@ def run(ck: core.Check):
             styles = ["lazy", "eager"] if not ck.thorough else skel_styles
         else:
             styles = skel_styles if origin.startswith("skeleton") else rng.sample(L.STYLES, n_styles)
+            if not ck.thorough and (origin.startswith("skeleton2") or origin.startswith("skeleton3")):
+                styles = rng.sample(skel_styles, 2)  # (quick budget: two seeded of the three styles)
         skey = struct_key(prog)
         for style in styles:
             rseed = rng.getrandbits(32)
@@ -790,6 +798,8 @@ def run(ck: core.Check):
                     variants = [variants[0]] + rng.sample(variants[1:], ck.pick(1, 2))
                 elif pi % 4:
                     variants = variants[:1]
+                    if not ck.thorough and pi % 2 and origin.split(":")[0] in ("skeleton", "skeleton2", "skeleton3", "skeleton4"):
+                        variants = []  # (quick budget: these families read every input at depth <= 1; every 2nd program)
                 for variant in variants:
                     try:
                         vres = run_variant(prog, R, variant, bindings, specs)
